@@ -111,9 +111,9 @@ Hypothesis G_bp : forall ps rs, G (RGet ps) (RSegs rs) -> Forall BP (concat (map
 Hypothesis G_hp : forall n h, G (RHash n) (RHashV h) -> HP n h.
 Hypothesis G_hd : forall k n h, G (RLatest k) (RHead n h) -> HD n.
 Hypothesis H_fd : forall x, SA (AReply (RDep x)) -> FD.
-Hypothesis H_rj : forall p ln lh f,
-  W c BP p -> pos_of c HP HD p ln lh -> BP f -> b_num f = ln + 1 -> b_parent f <> 0 ->
-  lh <> b_parent f -> RJ p.
+Hypothesis H_rj : forall p ln lh ps segs f,
+  W c BP p -> pos_of c HP HD p ln lh -> G (RGet ps) (RSegs segs) -> In f (concat (map seg_blocks segs)) ->
+  b_num f = ln + 1 -> b_parent f <> 0 -> lh <> b_parent f -> RJ p.
 
 Variable g : list batch.
 Variable d : db.
